@@ -132,6 +132,7 @@ type rcptRun struct {
 	skipped  []Ev
 	problems []string
 	stuck    bool
+	broken   bool // a transmission failed inside its element
 }
 
 func newRcptRun(r *common.Run, ids []int) (*rcptRun, error) {
@@ -199,7 +200,7 @@ func (rr *rcptRun) returned(i int, e Ev) {
 		if !rr.cancd[i] {
 			rr.r.Fail("outcome", "ctx-error-without-cancel", rr.lines(), fmt.Sprintf("waiter %d returned context.Canceled but its context was never cancelled", i))
 		}
-	case errors.Is(err, errPayload):
+	case errors.Is(err, errPayload), err != nil && strings.Contains(err.Error(), "abandoned in the middle of an element"):
 		rr.outcome[i] = "err"
 		delete(rr.table, rr.ids[i])
 	default:
@@ -243,7 +244,14 @@ func (rr *rcptRun) act(a string) bool {
 		})
 		rr.table[rr.ids[i]] = i
 		rr.wstate[i] = "payload"
-		rr.wait(isEv(label, "park:payload"), label+" at payload gate")
+		// on a broken output (an earlier transmission failed inside its element) the call fails at once
+		if e, ok := rr.wait(func(e Ev) bool { return e.Who == label && (e.What == "park:payload" || strings.HasPrefix(e.What, "ret:")) }, label+" at payload gate or returned"); ok && strings.HasPrefix(e.What, "ret:") {
+			if !rr.broken {
+				rr.problem("waiter %d returned at once on a healthy output", i)
+			}
+			rr.trace = append(rr.trace, "f"+strconv.Itoa(i))
+			rr.returned(i, e)
+		}
 	case 'o', 'f':
 		i := num()
 		if i >= len(rr.ids) || rr.wstate[i] != "payload" {
@@ -252,6 +260,9 @@ func (rr *rcptRun) act(a string) bool {
 		rr.trace = append(rr.trace, a)
 		label := "w" + strconv.Itoa(i)
 		rr.gates[i].fail <- a[0] == 'f'
+		if a[0] == 'f' {
+			rr.broken = true
+		}
 		rr.ctl.Release(label, "payload")
 		if a[0] == 'o' {
 			rr.wstate[i] = "presel"
